@@ -580,8 +580,49 @@ class LowerToIRVisitor(Visitor.DefaultVisitor):
                 ctx.BasicBlock.AddInstruction(result)
                 return result
         elif left.Type.IsMatrix() and right.Type.IsVector():
-            # M <op> V, needs to get lowered to matrix-vector multiply
-            pass
+            # M * V: one dot product of a matrix row with the vector per
+            # component of the result
+            leftType = left.Type
+            resultType = ctx.AdaptType(be.GetType())
+            elementType = resultType.ElementType
+            components = []
+            for row in range(leftType.RowCount):
+                leftRow = LinearIR.MatrixAccessInstruction(
+                    leftType.RowType,
+                    left,
+                    ctx.Function.CreateConstant(LinearIR.IntegerType(), row),
+                )
+                ctx.BasicBlock.AddInstruction(leftRow)
+
+                products = LinearIR.BinaryInstruction(
+                    LinearIR.OpCode.VECTOR_MUL, right.Type, leftRow, right
+                )
+                ctx.BasicBlock.AddInstruction(products)
+
+                total = None
+                for column in range(leftType.ColumnCount):
+                    product = LinearIR.VectorAccessInstruction(
+                        elementType,
+                        products,
+                        ctx.Function.CreateConstant(
+                            LinearIR.IntegerType(), column
+                        ),
+                    )
+                    ctx.BasicBlock.AddInstruction(product)
+                    if total is None:
+                        total = product
+                    else:
+                        total = LinearIR.BinaryInstruction(
+                            LinearIR.OpCode.ADD, elementType, total, product
+                        )
+                        ctx.BasicBlock.AddInstruction(total)
+                components.append(total)
+
+            result = LinearIR.ConstructPrimitiveInstruction(
+                resultType, components
+            )
+            ctx.BasicBlock.AddInstruction(result)
+            return result
         elif left.Type.IsMatrix() and right.Type.IsScalar():
             # M <op> S, needs to get lowered to vector-scalar multiply or
             # division
